@@ -1369,8 +1369,8 @@ int QSexact_verify (
             x_mpq = QScopy_array_dbl_mpq(x_dbl);
             y_mpq = QScopy_array_dbl_mpq(y_dbl);
             
-            /* test optimality of constructed solution */
-            basis = dbl_QSget_basis(p_dbl);
+            /* test optimality of constructed solution: the verdict is about the
+             * caller's basis, which is also what the rational check below gets */
             rval = QSexact_optimal_test(p_mpq, x_mpq, y_mpq, basis);
             if( rval )
             {
@@ -1420,8 +1420,8 @@ int QSexact_verify (
          for( i = 0; i < p_mpq->qslp->nrows; ++i )
             mpq_EGlpNumSet(y_mpq[i], dbl_d_sol[i]);
             
-         /* test optimality of constructed solution */
-         basis = dbl_QSget_basis(p_dbl);
+         /* test optimality of constructed solution: the verdict is about the
+          * caller's basis, which is also what the rational check below gets */
          rval = QSexact_optimal_test(p_mpq, x_mpq, y_mpq, basis);
          if( rval )
          {
